@@ -6,6 +6,7 @@ package harness
 
 import (
 	"encoding/binary"
+	"os"
 	"errors"
 	"fmt"
 	"strconv"
@@ -126,6 +127,7 @@ type Engine struct {
 	// results of ops, for differentials (C08/C18)
 	Results []string
 	RecordResults bool
+	DebugVerify bool // debugging aid: run the in-repo verifiers after every primitive sub-operation
 	AllowCommitFaults bool // C14: injected ledger failures are expected and retried
 	// limits (read at start)
 	MaxArrElem, MaxMapElem, MaxMapKey uint32
@@ -175,6 +177,7 @@ func NewEngine(cfg Config, or Oracles) (*Engine, error) {
 		CB:       &Callbacks{},
 		Stats:    newCaseStats(),
 		keyCache: map[uint64]MV{},
+		DebugVerify: os.Getenv("VERIF_DEBUG_VERIFY") != "",
 	}
 	e.St = NewStorage(e.L)
 	e.MaxArrElem = atree.MaxInlineArrayElementSize()
@@ -275,6 +278,7 @@ func (e *Engine) pick(t uint, wantMap, wantArr bool) *Node {
 
 func retire(n *Node) {
 	n.HA, n.HM = nil, nil
+	n.Gen++
 	for _, c := range n.Children() {
 		retire(c)
 	}
@@ -330,8 +334,10 @@ func (e *Engine) setHandle(n *Node, v atree.Value) error {
 		n.HA = a
 	}
 	n.HandleStep = e.step
+	n.Gen++
 	if n.Parent != nil {
 		n.ParentShape = n.Parent.Shape
+		n.HandleParentGen = n.Parent.Gen
 	}
 	return nil
 }
@@ -339,6 +345,12 @@ func (e *Engine) setHandle(n *Node, v atree.Value) error {
 // acquire makes sure n has a designated handle (R1), obtaining it through the
 // parent chain (lookup) or, for roots, by reopening with the root identifier.
 func (e *Engine) acquire(n *Node) error {
+	if n.HasHandle() && n.Parent == nil && n.Former != nil && n.Former.Gen != n.HandleParentGen {
+		// R1: the stale handle of a detached container still calls back into the handle object of its
+		// former parent; once that object has been replaced (re-acquired) the old handle is dead too
+		retire(n)
+		e.Stats.label("stale_handle_dropped_with_parent_handle")
+	}
 	if n.HasHandle() {
 		return nil
 	}
@@ -357,6 +369,11 @@ func (e *Engine) acquire(n *Node) error {
 			n.HA = a
 		}
 		n.HandleStep = e.step
+		n.Gen++
+		if n.Former != nil {
+			// a handle obtained by reopening has no callback into the former parent: never stale
+			n.HandleParentGen = n.Former.Gen
+		}
 		return nil
 	}
 	p := n.Parent
